@@ -15,19 +15,25 @@ by the tables (proved equal in `RTV/Lemmas/SpecRun.lean`). -/
 namespace RTV.Seq
 open RTV.Py RTV.Re RTV.Match
 
+/-- a resolution value: a text (`str` as it is, `bool` as `True` / `False`), or a `float` as the exact fraction the
+model computes for it (the float rounding of the implementation is not modelled: compared within 1e-9) -/
+inductive RVal where
+  | text (s : Str)
+  | frac (num den : Int)
+deriving Repr, DecidableEq, Inhabited
+
 /-- a `ModelResult` as a Specs case describes one: `type_name`, `text`, `start`, `end`, and the `resolution` dict as
-(key, text of the value) pairs in insertion order — a `str` value as it is, a `bool` as `True` / `False`, a `float`
-as its `repr` (`0.0`) -/
+(key, value) pairs in insertion order -/
 structure SpecEnt where
   typeName : Str
   text : Str
   start : Nat
   stop : Int
-  res : List (Str × Str)
+  res : List (Str × RVal)
 deriving Repr, DecidableEq, Inhabited
 
 /-- `model_result.end = parse_result.start + parse_result.length - 1` -/
-def entOf (typeName : Str) (r : ER) (res : List (Str × Str)) : SpecEnt :=
+def entOf (typeName : Str) (r : ER) (res : List (Str × RVal)) : SpecEnt :=
   ⟨typeName, r.text, r.start, (r.start : Int) + r.len - 1, res⟩
 
 def kValue : Str := ofString "value"
@@ -73,7 +79,7 @@ finditer, sweep; resolution `{'value': text}` (`AbstractSequenceModel.get_resolu
 def simpleModelRun (E : SeqEnv) (re : RE) (typeName : Str) (q : Str) : List SpecEnt :=
   match RTV.Preprocess.preprocess RTV.Gen.recodePairs E.lowerC false [] q with
   | none => []
-  | some p => (seqSweep E.K p (tagged "x" (findAll E.T p.toArray re))).map fun r => entOf typeName r [(kValue, r.text)]
+  | some p => (seqSweep E.K p (tagged "x" (findAll E.T p.toArray re))).map fun r => entOf typeName r [(kValue, .text r.text)]
 
 /-- `recognize_url(q, culture)`: every field of the results (`start` / `end` are offsets in the preprocessed query) -/
 def urlSpecRun (E : SeqEnv) (zh : Bool) (q : Str) : List SpecEnt :=
@@ -82,7 +88,7 @@ def urlSpecRun (E : SeqEnv) (zh : Bool) (q : Str) : List SpecEnt :=
   | some p =>
     match RTV.Url.urlExtract (if zh then urlEnvZh E else urlEnvOf E) p with
     | none => []
-    | some ers => ers.map fun r => entOf (ofString "url") r [(kValue, r.text)]
+    | some ers => ers.map fun r => entOf (ofString "url") r [(kValue, .text r.text)]
 
 /-- `recognize_url(q, 'en-us')`: `QueryProcessor.preprocess`, `BaseURLExtractor.extract`, `SequenceParser.parse`
 (value = text); an exception inside the `try` yields no entity. Fields: type name, start, end, text, value. -/
@@ -127,14 +133,18 @@ def phoneExtract (E : SeqEnv) (source : Str) : List ER :=
       (seqSweep E.K source ms)
 
 /-- `recognize_ip_address(q, culture)`: `zh` = the Chinese configuration (zh-*, ja-*), else English. No preprocessing
-(`IpAddressModel.parse` passes the query as it is).  `IpAddressModel.get_resolution` builds
-`{'value': resolution_str, 'score': str(data.value)}`; `BaseIpParser.parse` never sets `value`, so the score is the text
-`None` — and there is NO `type` key, although the extractor knows `ipv4` / `ipv6` (`r.data`) and the Specs state it. -/
-def ipModelRun (E : SeqEnv) (zh : Bool) (q : Str) : List SpecEnt :=
+(`IpAddressModel.parse` passes the query as it is).  `typed = true` (code after the `Resolution.type` fix):
+`IpAddressModel.get_resolution` builds `{'value': resolution_str, 'type': data.data}` — `ipv4` / `ipv6`, the `ReVal` of the
+regex that matched.  `typed = false` (code before): `{'value': resolution_str, 'score': str(data.value)}`;
+`BaseIpParser.parse` never sets `value`, so the score was the text `None` — and there was NO `type` key, although the
+Specs state it. -/
+def ipModelRun (E : SeqEnv) (zh : Bool) (typed : Bool) (q : Str) : List SpecEnt :=
   let v4 := if zh then RTV.Gen.zhIpv4Regex else RTV.Gen.ipv4Regex
   let v6 := if zh then RTV.Gen.zhIpv6Regex else RTV.Gen.ipv6Regex
   (ipExtract E.T E.K v4 v6 q).map fun r =>
-    entOf (ofString "ip") r [(kValue, dropLeadingZeros r.text), (kScore, ofString "None")]
+    entOf (ofString "ip") r
+      (if typed then [(kValue, .text (dropLeadingZeros r.text)), (kType, .text (ofString r.data))]
+       else [(kValue, .text (dropLeadingZeros r.text)), (kScore, .text (ofString "None"))])
 
 /-- `'%g' % (n / 100)` for the integer scores `0..100` -/
 def gfmt (n : Int) : Str :=
@@ -149,19 +159,15 @@ def guidModelRun (E : SeqEnv) (q : Str) : List SpecEnt :=
   | none => []
   | some p =>
     (guidExtract E.T E.K RTV.Gen.guidRegex p).map fun r =>
-      entOf (ofString "guid") r [(kValue, r.text), (kScore, gfmt (scoreGuid E.T RTV.Gen.guidElementRegex r.text))]
+      entOf (ofString "guid") r
+        [(kValue, .text r.text), (kScore, .text (gfmt (scoreGuid E.T RTV.Gen.guidElementRegex r.text)))]
 
-/-- `repr` of the float a reported boolean score is: `0.0` for the exact zero (all the code reports, see
-`RTV.Choice.parserScore`); any other fraction is shown as `num/den` (no Specs text equals that) -/
-def scoreRepr (s : RTV.Choice.Score) : Str :=
-  if s.num = 0 then ofString "0.0" else ofString s!"{s.num}/{s.den}"
-
-/-- `recognize_boolean(q, 'en-us')`: resolution `{'value': True|False, 'score': <parser's score>}` — the score is the
-default of the `ChoiceExtractDataResult` that `ChoiceParser.parse` builds anew (`RTV.Choice.parserScore`), not the
-extractor's -/
+/-- `recognize_boolean(q, 'en-us')`: resolution `{'value': True|False, 'score': <the score the parser hands on>}`
+(`RTV.Choice.parserScore`: the extractor's `top_score`, or — before the `Resolution.score` fix — the default `0.0`), as the
+exact fraction -/
 def boolModelRun (E : RTV.Choice.Env) (q : Str) : Option (List SpecEnt) :=
   (RTV.Choice.recognise E q).map fun rs => rs.map fun r =>
     ⟨ofString "boolean", r.text, r.start, r.stop,
-     [(kValue, ofString (if r.value then "True" else "False")), (kScore, scoreRepr r.score)]⟩
+     [(kValue, .text (ofString (if r.value then "True" else "False"))), (kScore, .frac r.score.num r.score.den)]⟩
 
 end RTV.Seq
